@@ -25,7 +25,6 @@ package safelog
 // grammar driver drivers/safelog_scrub_grammar_test.go stands in for that).
 //@ func Scrub(b []byte) (r []byte)
 //@   props C07
-//@   flag nosafety
 //@   loop 1 invariant {two-passes-per-pattern} calls(ReplaceAllFunc) == 2 * (rangeindex#1 + 1) && rangeindex#1 + 1 <= len(scrubberPatterns)
 //@   loop 2 invariant 0 <= i && i <= 2 && calls(ReplaceAllFunc) == 2 * rangeindex#1 + i
 //@   ensures {two-passes-per-pattern} calls(ReplaceAllFunc) == 2 * len(scrubberPatterns)
